@@ -159,7 +159,7 @@ def interleave_rows(rng):
     return rows, prms
 
 
-def split_rows(rng):
+def split_rows(rng, force_quant=False):
     """One or two groups of >= 30 hits that are bi/tri-modal (mixture engaged), drifting, any row order."""
     n = rng.choice([30, 45, 60, 90])
     modes = rng.choice([2, 2, 3])
@@ -171,6 +171,8 @@ def split_rows(rng):
     # quantised instruments: one mode a single repeated value, the others on a coarse grid (many ties: a mixture
     # component can come out unpopulated, which is what the empty-component penalty of ncomp_from_gmm is for)
     quant = rng.choice([0, 0, 0, 50, 25, 100])
+    if force_quant and not quant:
+        quant = rng.choice([50, 25, 100])
     # an MSA with hits of higher types above it: rows dropped at construction (gaps in the row labels) before a group is split
     high = rng.random() < 0.3
     rows = []
@@ -347,6 +349,26 @@ def twin_prms(rng, prms0, j=1):
     return pj
 
 
+# Corpus: seeds of `quantised_rows` for which (with the pinned scikit-learn) a seeded 2- or 3-component mixture fit of the
+# one group leaves a component without a single hit - found by scanning 4000 such tables on the unchanged tree (1 in 200);
+# elsewhere in the generators this happens only through kernel fuzzing.
+EMPTYCOMP_KS = [25, 70, 129, 224, 346, 449, 626, 1135, 1215, 1286, 1358, 1749, 1771, 2204, 2222, 2323, 2835, 2948, 3893, 3949]
+
+
+def quantised_rows(k):
+    """One ceilometer, one hit per time step, a skewed unimodal deck on a coarse height grid (25 / 50 / 100 ft)."""
+    rng = random.Random(f'q:{k}')
+    n = rng.choice([40, 60, 76, 100, 140])
+    q = rng.choice([50, 100, 25])
+    base = rng.choice([1000, 2500, 600])
+    spread = rng.choice([3, 4, 5, 6])
+    rows = []
+    for i in range(n):
+        lvl = min(int(abs(rng.gauss(0, 1.3)) * spread / 2 + rng.random() * 2), 9)
+        rows.append(('0', round(-1200 + 1195.0 * i / n, 1), float(base + q * lvl), 1))
+    return rows
+
+
 def gen_scene(seed, k, family):
     rng = random.Random(f'{seed}:{family}:{k}')
     meta = {'family': family, 'k': k}
@@ -358,9 +380,15 @@ def gen_scene(seed, k, family):
         rows, prms = owned_chain_rows(rng)
     elif family == 'interleave':
         rows, prms = interleave_rows(rng)
-    elif family == 'split':
-        rows, prms, order = split_rows(rng)
+    elif family in ('split', 'splitq'):
+        # 'splitq': the quantised variant only (ties galore: mixture fits with an unpopulated component)
+        rows, prms, order = split_rows(rng, force_quant=(family == 'splitq'))
         meta['order'] = order
+    elif family == 'emptycomp':
+        kk = EMPTYCOMP_KS[(k + seed) % len(EMPTYCOMP_KS)] if rng.random() < 0.8 else rng.randrange(4000)
+        rows = quantised_rows(kk)
+        prms = rng.choice([{}, {}, {'MIN_SEP_VALS': [150, 1000]}, {'MIN_SEP_VALS': [100, 1000], 'BASE_LVL_HEIGHT_PERC': 50}])
+        meta['corpus_k'] = kk
     elif family == 'crop':
         rows, prms = crop_rows(rng)
     elif family == 'manyslices':
@@ -395,6 +423,17 @@ def index_variant(rng, rows):
 def _work(args):
     seed, k, family = args
     rows, prms, meta = gen_scene(seed, k, family)
+    rn = random.Random(f'{seed}:names:{family}:{k}')
+    if rn.random() < 0.08 and rows:
+        # ceilometer ids are labels: the same scene with ids as they turn up in the field (padded, differing by case only,
+        # numbers in several spellings, blanks, escapes, very long ...)
+        from . import metamorph as _mm
+        how_n = rn.choice([h for h in _mm.RENAMINGS if h not in ('concat_collision', 'swap')])
+        m_ = _mm.rename_map({r[0] for r in rows}, how_n, rn, rows)
+        rows = [(m_[c], dt, h, t) for c, dt, h, t in rows]
+        if prms.get('EXCLUDE_FOR_BASE_HEIGHT_CALC'):
+            prms = dict(prms, EXCLUDE_FOR_BASE_HEIGHT_CALC=[m_.get(c, c + '#') for c in prms['EXCLUDE_FOR_BASE_HEIGHT_CALC']])
+        meta['names'] = how_n
     index, ikind = index_variant(random.Random(f'{seed}:idx:{family}:{k}'), rows)
     meta['index'] = ikind
     # one scene in three goes through the package's entry point `ampycloud.run` instead of the stage methods
@@ -459,6 +498,22 @@ def _work(args):
     if not obs['exc']:
         out['req'] = scenes.run_request(obs)
         out['msgs'] = {w: obs['levels'][w]['msg'] for w in obs['levels']}
+        # the plainest clause of C05 read off the chunk directly (used when the outcome cannot even be phrased as a model
+        # request): a non-detection belongs to no set, a hit with a height to one of each kind
+        try:
+            d_ = obs['chunk'].data
+            nan_ = d_['height'].isna().to_numpy()
+            acc = []
+            for col in ('slice_id', 'group_id', 'layer_id'):
+                if col in d_.columns:
+                    ids_ = d_[col].to_numpy()
+                    if (ids_[nan_] != -1).any():
+                        acc.append(f'C05.valid-iff-assigned {col}: {int((ids_[nan_] != -1).sum())} non-detection(s) carry an id')
+                    if (ids_[~nan_] < 0).any():
+                        acc.append(f'C05.valid-iff-assigned {col}: {int((ids_[~nan_] < 0).sum())} hit(s) with a height carry none')
+            out['direct_c05'] = acc
+        except Exception:
+            out['direct_c05'] = []
         tr = obs['trace']
         out['stats']['merge_recomputed_bases'] = 0
         if tr.gmm:
@@ -476,7 +531,7 @@ def _work(args):
 
 
 FAMILIES = (('synth', 0.27), ('exact', 0.08), ('degenerate', 0.08), ('multi', 0.07), ('chain', 0.14), ('split', 0.14),
-            ('crop', 0.11), ('bundle', 0.04), ('drift', 0.06), ('manyslices', 0.012), ('owned', 0.08), ('interleave', 0.04))
+            ('crop', 0.11), ('bundle', 0.04), ('drift', 0.06), ('manyslices', 0.012), ('owned', 0.08), ('interleave', 0.04), ('emptycomp', 0.015))
 
 
 def run_pipeline(chk, prop, n_scenes, families=FAMILIES, crash_is_violation=False):
@@ -552,6 +607,9 @@ def run_pipeline(chk, prop, n_scenes, families=FAMILIES, crash_is_violation=Fals
             chk.count('float_near_tie_scenes_not_compared')
             chk.notes.append(f"float-near-tie scene {task}: {a['near_tie'][:3]}")
         if a['bad']:
+            if prop == 'C05':
+                for sp in res.get('direct_c05') or []:
+                    chk.spec_fail(sp.split(' ')[0], sp, replay, signature=None)
             chk.mismatch('what the implementation produced cannot be expressed as a model request (driver: bad-request)', answers[task][:200], replay)
             continue
         for ne in a['ne']:
